@@ -31,8 +31,6 @@ impl LintPass for OverlappingFunctionCheck {
                         token: l.raw_token().clone(),
                     })
                     .collect::<Vec<_>>();
-                #[cfg(feature = "rva_verif")]
-                let labels = crate::verif::reorder_labels("overlap_labels", labels, &node);
                 let label = labels.first();
 
                 if let Some(l) = label {
